@@ -150,6 +150,11 @@ def run(ctx):
                 return mod_vars[e.id]
             return None
         m = mod_of(left)
+        above = False
+        if m is None and mod_of(right) is not None and isinstance(op, (ast.Lt, ast.LtE)):
+            # c < x % m : the loader's spelling of  x % m > c
+            left, right, above = right, left, True
+            m = mod_of(left)
         if m is None:
             # accepted shapes: min(r, delta - r) < tol, (delta - r) < tol
             txt = norm(left)
@@ -165,9 +170,9 @@ def run(ctx):
         modulus = m.right
         lit_c = _literal_number(right)
         lit_m = _literal_number(modulus)
-        if isinstance(op, (ast.Gt, ast.GtE)):
+        if above:
             ok = lit_c is not None and lit_m is not None and lit_c < lit_m
-            ctx.ob('C10.R2', 'window:near-next-multiple:' + norm(node), ok,
+            ctx.ob('C10.R2', 'window:near-next-multiple:%s > %s' % (norm(left), norm(right)), ok,
                    '`%s`: "close to the next multiple" is tested against an absolute literal '
                    'although the modulus %s is the user-chosen step; it presumes step == 1 '
                    '(-w 0 14 2 prints every pH from x.0 to x+0.9 for odd x)' % (
@@ -248,7 +253,7 @@ def run(ctx):
     wtests = [n for n in walk_no_nested(writer) if isinstance(n, ast.Compare)
               and 'window[' in norm(n)]
     txts = sorted(norm(n).replace(' ', '') for n in wtests)
-    lo_ok = any('>=window[0]' in t for t in txts)
+    lo_ok = any(t.startswith('window[0]<=') for t in txts)
     hi_ok = any('<=window[1]' in t for t in txts)
     for node in walk_no_nested(writer):
         # chained form  w_min - tol <= pH <= w_max + tol
